@@ -121,6 +121,7 @@ func loadEngine(repo string, verifDir string) (*Engine, error) {
 		fc.computeProps()
 	}
 	e.loadRefNames(verifDir)
+	e.remapClosureContracts()
 	e.known = loadKnown()
 	for i := range e.known.Findings {
 		f := &e.known.Findings[i]
